@@ -126,6 +126,74 @@ def srcloc(repo):
     return res
 
 
+def locencode(repo):
+    """Any encoder of SourceLocation flags other than SourceLocation.__str__ itself (for instance an inlined
+    formatter in the JSON serializer) must write the flags independently of each other and with __str__'s
+    characters: from_str is the only decoder, and it accepts any combination."""
+    res = RuleResult("R-LOCENCODE")
+    m = repo.mod(PTYPES)
+    s = m.funcs.get("SourceLocation.__str__")
+    if not s:
+        raise AnalysisError("parser_types: SourceLocation.__str__ vanished")
+    chars = {}
+    for st in s.node.body:
+        if isinstance(st, ast.If) and isinstance(st.test, ast.Attribute):
+            for b in st.body:
+                if isinstance(b, ast.AugAssign) and isinstance(b.value, ast.Constant):
+                    chars[st.test.attr] = b.value.value
+    if len(chars) < 2:
+        raise AnalysisError("SourceLocation.__str__: flag suffixes not found")
+    flags = set(chars)
+
+    def flags_in(node):
+        return {n.attr for n in ast.walk(node) if isinstance(n, ast.Attribute) and n.attr in flags}
+
+    def chars_in(node):
+        return {n.value for n in ast.walk(node) if isinstance(n, ast.Constant) and isinstance(n.value, str) and n.value in chars.values()}
+
+    nfun = 0
+    for mod in repo.modules.values():
+        for f in mod.funcs.values():
+            if mod.rel == PTYPES and f.qualname.startswith("SourceLocation."):
+                continue
+            nfun += 1
+            body_flags = set()
+            for n in walk_no_nested_funcs(f.node):
+                if isinstance(n, ast.Attribute) and n.attr in flags:
+                    body_flags.add(n.attr)
+            if not body_flags or not chars_in(f.node):
+                continue
+            res.instances += 1
+            for n in walk_no_nested_funcs(f.node):
+                if isinstance(n, (ast.IfExp, ast.If)):
+                    tf = flags_in(n.test)
+                    if len(tf) != 1:
+                        continue
+                    (flag,) = tf
+                    orelse = n.orelse if isinstance(n.orelse, list) else [n.orelse]
+                    body = n.body if isinstance(n.body, list) else [n.body]
+                    others = set()
+                    for o in orelse:
+                        others |= flags_in(o) - {flag}
+                        others |= {k for k, c in chars.items() if k != flag and c in chars_in(o)}
+                    if others:
+                        res.add(f"{mod.rel}|{f.qualname}|exclusive|{flag}", f"{f.qualname} writes the suffix for "
+                                f"{sorted(others)} only when {flag} is false: a location carrying both flags loses one in the "
+                                "text form and is not read back equal", mod.rel, n.lineno, f.qualname)
+                    got = set()
+                    for b in body:
+                        got |= chars_in(b)
+                    negated = isinstance(n.test, ast.UnaryOp) and isinstance(n.test.op, ast.Not)
+                    if got and not negated and chars[flag] not in got:
+                        res.add(f"{mod.rel}|{f.qualname}|char|{flag}", f"{f.qualname} writes {sorted(got)} for {flag}; "
+                                f"SourceLocation.from_str reads {chars[flag]!r} for it", mod.rel, n.lineno, f.qualname)
+    res.instances += 1  # the scan itself
+    res.detail = {"functions_scanned": nfun, "flag_characters": chars}
+    res.samples = [f"{nfun} functions scanned for private encoders of {sorted(flags)}"]
+    res.analysed = [PTYPES, "compiler/util/ir_data_utils.py"]
+    return res
+
+
 def drivers(repo):
     """embossc and the split drivers reach parsing and header generation through the same entry points,
     with the same Config construction; the split drivers are connected by to_json / from_json(EmbossIr)."""
